@@ -299,28 +299,35 @@ def plan(tier):
             yield f + (both, E, ("open",), "tight")
         extra, extra_cr = [], []
     else:
+        def low_level(tuples, crlfs, lvl):
+            # the low-level route (file objects, lazy left at its default) and gzip files with one member per entry
+            for f in files(tuples, crlfs):
+                yield f + (both, (None,), ("fileobj",), lvl)
+                yield f + (("gzipm",), (False,), ("open",), lvl)
         for f in files([()] + singles, lf):
             yield f + (both, EL, ("open",), "all")
         for f in files([()] + singles, cr):
             yield f + (both, EL, ("open",), "near")
         for f in files(pairs, lf):
             yield f + (both, EL, ("open",), "all")
+        for t in low_level([(5,), (2, 5), (1, 2, 5)], lf, "all"):
+            yield t
+        for f in files(N3_ALLK, lf):
+            yield f + (both, EL, ("open",), "all")
         for f in files(pairs, cr):
             yield f + (both, E if sum(f[1]) % 2 else EL, ("open",), "near")
-        for f in files(triples, lf):
-            yield f + (both, EL, ("open",), "all" if f[1] in N3_ALLK else "near")
-        for f in files([t for t in triples if (t[0] + 2 * t[1] + t[2]) % 2 == 0], cr):
-            yield f + (both, E, ("open",), "near")
         for f in files(N4_THOROUGH, lf):
             yield f + (both, EL if f[1] in N4_THOROUGH[:6] else E, ("open",), "near")
+        for t in low_level([(2, 5), (1, 2, 5)], cr, "near"):
+            yield t
+        for t in low_level([(1,), (5, 1, 2), (2, 2, 1, 5)], lf, "near"):
+            yield t
+        for f in files([t for t in triples if t not in N3_ALLK], lf):
+            yield f + (both, EL, ("open",), "near")
+        for f in files([t for t in triples if (t[0] + 2 * t[1] + t[2]) % 2 == 0], cr):
+            yield f + (both, E, ("open",), "near")
         for f in files(N4_THOROUGH[3:8], cr):
             yield f + (both, E, ("open",), "near")
-        extra, extra_cr = [(1,), (5,), (2, 5), (1, 2, 5), (5, 1, 2), (2, 2, 1, 5)], [(2, 5), (1, 2, 5), (5, 1, 2)]
-    # the low-level route (file objects, lazy left at its default) and multi-member gzip on a smaller family
-    for f in list(files(extra, lf)) + list(files(extra_cr, cr)):
-        lvl = "tight" if tier == "quick" else ("near" if f[3] else "all")
-        yield f + (both, (None,), ("fileobj",), lvl)
-        yield f + (("gzipm",), (False,), ("open",), lvl)
 
 
 def sampled_tasks(rng, tier):
